@@ -1196,9 +1196,6 @@ func TestVerif_C22(t *testing.T) {
 			{c22Cfg{Name: "store/buf0", Buffer: 0, Disk: rich}, mc.Pick(r, 2, 4)},
 			{c22Cfg{Name: "store+diff/buf0/async-parked", Buffer: 0, Disk: rich, Preload: buffered[3:], Gated: true}, mc.Pick(r, 2, 4)},
 		}
-		if r.Thorough() {
-			plans = append(plans, plan{c22Cfg{Name: "store/buf1M", Buffer: 1 << 20, Disk: rich}, 4})
-		}
 		for _, p := range plans {
 			if r.Expired() {
 				break
